@@ -386,7 +386,10 @@ func depth1(lv []*Expr) *core.Family {
 				e = s.Build([]*Expr{lv[r/nl], L(Long(-7)), lv[r%nl]})
 			}
 			checkExpr(t, s.Name, e)
-			t.SampleF(func() string { b, _ := cedar.NewPolicyFromAST((*publicast.Policy)(xast.Permit().When(e.ToAST()))).MarshalJSON(); return string(b) })
+			t.SampleF(func() string {
+				b, _ := cedar.NewPolicyFromAST((*publicast.Policy)(xast.Permit().When(e.ToAST()))).MarshalJSON()
+				return string(b)
+			})
 		},
 	}
 }
@@ -488,7 +491,10 @@ func heads() *core.Family {
 			checkPolicy(t, "head", p.ToAST, func() string { return fmt.Sprintf("%+v", *p) }, true)
 			t.AddStates(1)
 			t.Nontrivial()
-			t.SampleF(func() string { b, _ := cedar.NewPolicyFromAST((*publicast.Policy)(p.ToAST())).MarshalJSON(); return string(b) })
+			t.SampleF(func() string {
+				b, _ := cedar.NewPolicyFromAST((*publicast.Policy)(p.ToAST())).MarshalJSON()
+				return string(b)
+			})
 		},
 	}
 }
